@@ -241,3 +241,14 @@ def generic_vec(v) -> bool:
 def short(x, n=300):
     s = repr(x)
     return s if len(s) <= n else s[:n] + "..."
+
+
+def uniform_pick(seq, *material):
+    """element of seq chosen by a hash of already drawn values: Hypothesis' sampled_from is far from uniform over long lists
+    (counts per element differed by a factor of 20 in 5000 draws), which starves some operations; the choice is still a pure
+    function of the drawn data and is stored by name in the case"""
+    import json
+    import zlib
+
+    h = zlib.crc32(json.dumps(material, sort_keys=True, default=str).encode())
+    return seq[h % len(seq)]
